@@ -542,5 +542,5 @@ META = {
                   "A non-vanishing residual is classified with exact rational evaluation of the checker's own term "
                   "(witness) - a pass never relies on numbers. Numerical inverses are checked structurally.",
     "level_note": "Trusted: sympy normalisation soundness; scipy optimiser result fields. Not decided: root selection of the "
-                  "quadratic formulas, nan_to_num at 0, numerical accuracy and array broadcasting.",
+                  "quadratic formulas, nan_to_num at 0, numerical accuracy and array broadcasting; the activity terms of the pressure-explicit VST models (their loading is the numerical inverse of their own pressure - no independent equation is stated).",
 }
